@@ -419,6 +419,17 @@ def run(ctx):
             for dec, tag in (("", "unfolded"), ("(arch_spec=S)", "folded")):
                 check_kernel(ctx, src.replace("{DEC}", dec), S_l, zones_l, f"{label}/{tag}", cases)
             nfixed += 1
+    # one subroutine called with DIFFERENT zones (and with a grid outside every zone): whatever is hinted inside it holds for every call
+    for label in ("plain", "views"):
+        S_l, zones_l = FIX[label]
+        za, zb = zones_l[0], zones_l[-1]
+        src = ("@move\ndef first_col(g: grid.Grid[Any, Any]):\n    col = g[0:1, :]\n    one = grid.sub_grid(col, [0], [0])\n    return col\n\n"
+               "@move{DEC}\ndef main(c: bool):\n" + f'    z1 = spec.get_static_trap(zone_id="{za}")\n    q1 = spec.get_static_trap(zone_id="{zb}")\n'
+               "    p2 = first_col(z1)\n    v3 = first_col(q1)\n    w4 = first_col(grid.shift(z1, 70.0, 0.0))\n"
+               "    gate.local_rz(0.5, z1)\n    gate.local_rz(0.5, q1)\n    gate.local_rz(0.5, p2)\n    gate.local_rz(0.5, v3)\n    gate.local_rz(0.5, w4)\n")
+        for dec, tag in (("", "unfolded"), ("(arch_spec=S)", "folded"), ("(fold=False)", "unfolded")):
+            check_kernel(ctx, src.replace("{DEC}", dec), S_l, zones_l, f"{label}/{tag}", cases)
+        nfixed += 1
     for body in FILLED_KERNELS:
         for param in (False, True):
             # the site lists as literals, and handed in at run time (nothing to fold)
